@@ -199,7 +199,6 @@ func newGSUB(table tables.Layout) (GSUB, error) {
 				if err != nil {
 					return GSUB{}, err
 				}
-				subtable = subtables[j] // sanitize the actual lookup
 			}
 
 			// sanitize each lookup
@@ -256,7 +255,6 @@ func newGPOS(table tables.Layout) (GPOS, error) {
 				if err != nil {
 					return GPOS{}, err
 				}
-				subtable = subtables[j] // sanitize the actual lookup
 			}
 
 			// sanitize each lookup
